@@ -353,6 +353,10 @@ class Histogram:
             raise TypeError(
                 "'systematic_error_' is None. It must be initialized before calling the 'remove_bin' function."
             )
+        if self.scaling_ is None:
+            raise TypeError(
+                "'scaling_' is None. It must be initialized before calling the 'remove_bin' function."
+            )
 
         if isinstance(index, (int)):
             if np.isnan(index):
@@ -378,6 +382,9 @@ class Histogram:
         )
         self.systematic_error_ = np.asarray(
             [np.delete(sys_err, index) for sys_err in self.systematic_error_]
+        )
+        self.scaling_ = np.asarray(
+            [np.delete(scaling, index) for scaling in self.scaling_]
         )
 
         return self
@@ -432,6 +439,10 @@ class Histogram:
             raise TypeError(
                 "'systematic_error_' is None. It must be initialized before calling the 'add_bin' function."
             )
+        if self.scaling_ is None:
+            raise TypeError(
+                "'scaling_' is None. It must be initialized before calling the 'add_bin' function."
+            )
 
         if index < 0 or index >= len(self.bin_edges_):
             raise ValueError("Index in add_bin is out of range.")
@@ -460,6 +471,9 @@ class Histogram:
                 np.insert(sys_err, index, 0).tolist()
                 for sys_err in self.systematic_error_
             ]
+        )
+        self.scaling_ = np.asarray(
+            [np.insert(scaling, index, 1.0) for scaling in self.scaling_]
         )
 
         return self
